@@ -189,8 +189,9 @@ class QuicSession:
                 self.epoch_client += 1
                 self.last_key_phase_client = key_phase_bit
 
-        if self.epoch_client == len(self.decryptors["Application"]) or self.epoch_server == len(
-                self.decryptors["Application"]):
+        # every key generation up to the highest epoch must exist: the list is rebuilt (one entry) whenever new TLS data re-derives
+        # the keys, while the epochs may already have advanced
+        while max(self.epoch_client, self.epoch_server) >= len(self.decryptors["Application"]):
             new_decryptor = key_update(self.decryptors["Application"][-1], self.hash_fun, self.key_length, self.cipher, self.quic_version)
             self.decryptors["Application"].append(new_decryptor)
             if _verif.on():
